@@ -164,13 +164,14 @@ example : regenVal ((buildExpr flatFc flatE flatSt).2.pop ++ [Flat.Row.brk 0]) 9
 /-- BODY level, for the sub-subset `coreB`: statement lists (any length) of return (with / without a `coreE` value),
     assignment to a variable (first assignment declares the transient) or to an attribute with a `coreE` right-hand
     side, break, continue, control stop, create with / without variable, select any|many from instances, delete,
-    relate / unrelate (+ using), and `while` loops over such lists (nested to any depth: a new ACT_BLK per loop, R608,
-    its own R602 / R661 chain, an empty body included), with variable / instance names other than `self`: reading the population
+    relate / unrelate (+ using), and `while` loops and `if` statements WITHOUT elif / else over such lists (nested to any
+    depth: a new ACT_BLK per nested list, R608 / R607, its own R602 / R661 chain, an empty body included; for the `if`,
+    R682 / R683 navigate to no clause), with variable / instance names other than `self`: reading the population
     `prebuildFlat` builds back with `regenFlat` (outer block R666, R602 first-statement filter, R603 subtype dispatch,
     R661 successor chain to its end, variables through the symbol table) prints `genTokens`.
     `flatOk`: the builder never failed (the flag is never set back: `okAll_of_flatOk`).
-    MISSING for the full `regen_of_prebuild`: select from … where, for each, if / elif / else
-    (R605 / R607 / R658 / R606, R682 / R683), `self` as an instance name. -/
+    MISSING for the full `regen_of_prebuild`: select from … where, for each (R605), elif / else clauses
+    (R658 / R606, R682 / R683), `self` as an instance name. -/
 theorem regen_of_prebuild_partial (fc : FCtx) (a : Block) (hc : coreB a = true) (hok : flatOk fc a = true) :
     regenFlat (prebuildFlat fc a) = genTokens a :=
   regenFlat_prebuildFlat fc a hc (okAll_of_flatOk fc a hc hok)
@@ -224,6 +225,18 @@ def coreBody4 : Block :=
 
 example : regenFlat (prebuildFlat flatFc coreBody4) = genTokens coreBody4 :=
   regen_of_prebuild_partial flatFc coreBody4 (by decide) (by decide)
+
+/-- `n = 0; if (n < 1) n = 2; while (n > 0) if (true) break; end if; end while; if (false) end if; end if; return;` -/
+def coreBody5 : Block :=
+  .cons (.assign (.var "n") (.int "0"))
+  (.cons (.if_ (.bin (.var "n") "<" (.int "1"))
+      (.cons (.assign (.var "n") (.int "2"))
+      (.cons (.while_ (.bin (.var "n") ">" (.int "0")) (.cons (.if_ (.bool "true") (.cons .brk .nil) .nil .none) .nil))
+      (.cons (.if_ (.bool "false") .nil .nil .none) .nil))) .nil .none)
+  (.cons (.ret none) .nil))
+
+example : regenFlat (prebuildFlat flatFc coreBody5) = genTokens coreBody5 :=
+  regen_of_prebuild_partial flatFc coreBody5 (by decide) (by decide)
 
 /-- a TEST of the full statement on one body (if / elif / else, while, for each, select, relate): evaluation, no proof -/
 def flatBody : Block :=
